@@ -72,6 +72,7 @@ def run(ck: Checker):
     R.check_fresh_generated(ck, 'C08.ADD-ONLY', [MUL, SQ])
     ck.floor('C08.ADD-ONLY', 14)
     R.check_args(ck, eff, 'C08.ARGS', [MUL, SQ])
+    R.check_multiset(ck, 'C08.ARGS', [MUL, SQ])
     ck.floor('C08.ARGS', 30)
     R.check_endian(ck, 'C08.ENDIAN', [MUL, SQ], public, ENDIAN_EXEMPT)
     ck.floor('C08.ENDIAN', 11)
@@ -83,7 +84,13 @@ def run(ck: Checker):
     den = Denotations(repo)
     gadget_rules(ck, G.GadgetBench(repo, den))
     transpose_rule(ck)
-    ck.assume('NOT DECIDED: that the returned bits decode to a*b / a^2, the result widths and the Karatsuba thresholds (the core of the statement)')
+    ck.rule('C08.FOLD', 'for-range templates instantiated for small widths, every operand value, both endiannesses, on a host circuit with gates of its own: add_mul_alter = a * b (n + m bits; n + m - 1 when a width is 1) over the folded two-number adders; add_sub_two_numbers (the subtraction of the Karatsuba recombination) = (a - b) mod 2^len(a); while-loop bit counters replaced by their contract')
+    from .. import arith_folds
+    bench = arith_folds.fold_mul(ck, 'C08.FOLD')
+    arith_folds.fold_adders(ck, 'C08.FOLD', bench)
+    arith_folds.fold_sub(ck, 'C08.FOLD', bench)
+    ck.floor('C08.FOLD', 4)
+    ck.assume('NOT DECIDED: that the bits returned by the while-loop / recursive multipliers (default, Karatsuba, Dadda, Wallace, 2^k-1) and the squarers decode to a*b / a^2, and the Karatsuba thresholds')
     ck.assume('summation / subtraction gadgets reused by the multipliers are decided under C07.GADGET and C09.GADGET')
 
 
